@@ -133,6 +133,7 @@ Definition tstep (w : tworld) (op : tree) : tworld * tree :=
   | TL [TN 229; TN m] =>
       on_ts w (fun t rs => Ok ({| ts_net := set_max_clients (ts_net t) m; ts_in := ts_in t |}, rs, TL []))
   | TL [TN 230; TN dt] => on_ts w (fun t rs => do rs' <- of_pres (srv_update rs dt); Ok (t, rs', TL []))
+  | TL [TN 232; TN k] => on_tc w k (fun t rc => let rc' := Conn.disconnect rc in Ok (t, rc', t_status (c_status rc')))
   | TL [TN 231; TN k; TN dt] => on_tc w k (fun t rc => do rc' <- of_pres (update rc dt); Ok (t, rc', t_status (c_status rc')))
   | _ => (w, T_BAD_OP)
   end.
